@@ -70,7 +70,24 @@ def gen_case(rng, cid, mode):
     return {"id": cid, "script": sc, "arg": rng.randint(0, 40), "handlers": hs}
 
 
+def run_model(out):
+    """M level of the override rule (IcptMech.tla): the tree's fold conforms to the A level for every handler list; the two
+    tempting variants do not (the rule discriminates)"""
+    from .. import core
+    cfg = 'SPECIFICATION Spec\nCONSTANTS MaxH = 3 Values = {{0, 2, 5}} Rule = "{rule}"\nINVARIANT Conforms\nCHECK_DEADLOCK FALSE\n'
+    r = core.run_tlc("IcptMech", cfg.format(rule="keep-last-answer"), workers=2, timeout=600)
+    out.add_tlc("IcptMech[keep-last-answer]", r)
+    if r.violated:
+        out.judge({"clause": "OverrideRuleModel", "var": "", "why": "model"}, {"tlc": r.out[-2000:]})
+    for rule in ("last-handler", "chain"):
+        rr = core.run_tlc("IcptMech", cfg.format(rule=rule), workers=2, timeout=600)
+        out.add_tlc(f"IcptMech[{rule}]", rr)
+        if not rr.violated:
+            out.drift.append(f"IcptMech: the variant '{rule}' of the override rule is not rejected")
+
+
 def run(out, tier, seed):
+    run_model(out)
     P.run_world(out, tier, seed, gen_case, PLAN, salt=11,
                 rule="random call trees with reads/results x 2-4 handlers in random nesting order on the same variable: "
                      "overriding (constant / function of captured context / conditional on the tentative value) and "
